@@ -280,6 +280,16 @@ def main(tier, seed):
         name, n, why, opsdone = items[0]
         p = core.write_replay(PID, cls.replace(":", "-"), [f"# crash after {n} operation(s) of the snapshot in scenario {name}: {why}"] + opsdone)
         violations.append((p, ""))
+    # the snapshot also rewrites the global key map and sets the oplog-valid flag (snapshot_keys): those steps are enumerated
+    # by C16's crash stage (pumped replication loop, so that keys are registered); a start that fails after a kill there is C11's too
+    from checks.c16 import crash_stage, SPEC as S16
+    ks = crash_stage(S16, tier, only="snapshot")
+    obligations += [(f"key-map/flag steps: {o[0]}", o[1], o[2]) for o in ks["obligations"]]
+    evaluations += ks["evaluations"]
+    for f in ks["failures"]:
+        if f.cls.startswith("start-fails") and not any("keymap-start-fails" in v[0] for v in violations):
+            p = core.write_replay(PID, "keymap-start-fails-after-crash", f.case)
+            violations.append((p, ""))
     broken = [o for o in obligations if not o[1]]
     if (broken or disagreements) and not violations:
         p = core.write_replay(PID, "tie", ["# no failing input found; broken:"] + [f"# {o[0]}: {o[2]}" for o in broken] + ["# " + d for d in disagreements[:10]])
